@@ -310,7 +310,13 @@ func (s *Sim) fate(list []Fate, n *int, def Fate) Fate {
 
 // after runs f after d (in the bubble: on the fake clock); the scenario waits for all of them.
 func (s *Sim) after(d time.Duration, f func()) {
+	s.mu.Lock()
+	if s.stopped {
+		s.mu.Unlock()
+		return
+	}
 	s.timers.Add(1)
+	s.mu.Unlock()
 	time.AfterFunc(d, func() {
 		defer s.timers.Done()
 		s.mu.Lock()
@@ -591,6 +597,21 @@ func (s *Sim) readOne(d time.Duration) (got, closed bool) {
 	}
 }
 
+// probeClosed: Close has just returned to this goroutine; a non-blocking receive from Inbound() must
+// report "closed" (a closed channel never blocks and never yields a value from a parked sender).
+func (s *Sim) probeClosed(lane int) {
+	select {
+	case _, open := <-s.Tun.Inbound():
+		if open {
+			s.Tr.add(Ev{K: "probe", Lane: lane, Note: "message"})
+		} else {
+			s.Tr.add(Ev{K: "probe", Lane: lane, Note: "closed"})
+		}
+	default:
+		s.Tr.add(Ev{K: "probe", Lane: lane, Note: "open"})
+	}
+}
+
 // Result is what the executor hands to the oracles besides the trace.
 type Result struct {
 	ConnErr       string
@@ -708,6 +729,7 @@ func (s *Sim) Run() *Result {
 					s.Tr.add(Ev{K: "close>", Lane: i + 1})
 					s.Tun.Close()
 					s.Tr.add(Ev{K: "close<", Lane: i + 1})
+					s.probeClosed(i + 1)
 				case "send":
 					s.doSend(100+i, c.Tag)
 				}
@@ -736,6 +758,7 @@ func (s *Sim) Run() *Result {
 		s.Tr.add(Ev{K: "close>", Lane: 99})
 		s.Tun.Close()
 		s.Tr.add(Ev{K: "close<", Lane: 99})
+		s.probeClosed(99)
 	}()
 	limit := s.Limit
 	if limit <= 0 {
